@@ -521,7 +521,11 @@ class Condition(Event):
         for event in self._events:
             if event.callbacks and self._check in event.callbacks:
                 event.callbacks.remove(self._check)
-            if isinstance(event, Condition):
+            if isinstance(event, Condition) and all(
+                cb == event._build_value for cb in event.callbacks or ()
+            ):
+                # Only an anonymous nested condition is detached as well; one
+                # that somebody else waits for or observes must still trigger.
                 event._remove_check_callbacks()
 
     def _check(self, event: Event) -> None:
